@@ -533,6 +533,9 @@ def run(tier, seed, rep):
     # (every eco-mode register content of the configuration list: the groups may hold peak-shaving / 745 typed schedules)
     sa_cfgs = list(reps.values()) + [c for c in cfgs if c['family'] != 'DT' and c['refused'] == () and c['eco'] != 'off' and
                                      c not in reps.values()]
+    # (inverters without a battery, or refusing the battery block: the polls record that on the object)
+    sa_cfgs += [dict(family='ET', tag=t, power=p, refused=rf, battery_mode=bm, eco='off')
+                for t, p in (('ETU', 10000), ('ETT', 25000)) for rf, bm in (((), 0), (('battery',), 2), (('battery', 'mppt', 'meter_ext2'), 0))]
     for n, res in pmap(job_setters_after, sa_cfgs):
         nsa += n
         rep.add_many(res)
